@@ -317,8 +317,9 @@ def report(pid, tier, seed, pc, results, wall, scratch):
         "wall_s": round(wall, 2),
         "violations": nviol,
     }
-    os.makedirs(os.path.join(ROOT, "evidence"), exist_ok=True)
-    json.dump(ev, open(os.path.join(ROOT, "evidence", f"{pid}.json"), "w"), indent=1)
+    evdir = os.environ.get("VERIF_EVIDENCE_DIR") or os.path.join(ROOT, "evidence")   # (dev runs on scratch copies write elsewhere)
+    os.makedirs(evdir, exist_ok=True)
+    json.dump(ev, open(os.path.join(evdir, f"{pid}.json"), "w"), indent=1)
     print(f"{pid}: {n_obl} obligations for this property, {ev['coverage']['discharged']} discharged, "
           f"{nviol} violations, {len(undecided)} undecided, {wall:.1f}s")
     return status
